@@ -1558,6 +1558,14 @@ class Interp:
             raise Unknown("panic: index out of bounds (%d of %d)" % (i, len(raw)))
         if isinstance(b, tuple) and b[:1] == ("list",):
             b = b[1]
+        if isinstance(b, list) and isinstance(i, tuple) and i[:1] == ("range",):
+            # a sub-slice of a vector / slice
+            lo = 0 if i[1] is None else i[1]
+            hi = len(b) if i[2] is None else i[2]
+            if isinstance(lo, int) and isinstance(hi, int) and not isinstance(lo, bool) and not isinstance(hi, bool):
+                if lo > hi or hi > len(b):
+                    raise Unknown("panic: slice index out of range (%d..%d of %d)" % (lo, hi, len(b)))
+                return ("list", list(b[lo:hi]))
         if isinstance(b, list) and isinstance(i, int) and not isinstance(i, bool):
             if 0 <= i < len(b):
                 return b[i]
